@@ -107,7 +107,25 @@ def work(chunk):
         ptla.append(P)
         for ci, cfg in enumerate(cfglist):
             try:
-                if cfg['policy'][0] == 'model2':
+                if cfg['policy'][0] == 'trace':
+                    # code -> spec, step-exact: executions recorded action by action are followed by EngineTrace.tla
+                    from harness import replay
+                    rec = []
+                    for s in range(cfg['policy'][1]):
+                        labs, projs, lines = replay.record_execution(prog, driver.RandomPolicy(cfg['policy'][2] + s, [0.5, 0.8, 0.95, 0.7][s % 4]))
+                        rec.append((labs, projs))
+                        tid = '%s|t%d.%d' % (name, ci, s)
+                        cfgs[tid] = dict(policy=['random', cfg['policy'][2] + s, [0.5, 0.8, 0.95, 0.7][s % 4]])
+                        traces.append(tlc.make_trace(tid, pi, lines, amb=P['amb']))
+                        nexec += 1
+                    res, _, err = replay.follow_scripts(prog, rec)
+                    bad = [d for d in res if d]
+                    minfo.append({'prog': name, 'states': 0, 'transitions': 0, 'replayed': 0, 'walks': 0, 'liveness': None,
+                                  'drift': (dict(bad[0], kind='code->spec') if bad else None), 'invariants_violated': [],
+                                  'scripts': len(rec), 'script_steps': sum(len(x[0]) for x in rec)})
+                    if err:
+                        errors.append('%s: EngineTrace TLC error: %s' % (name, err[-600:]))
+                elif cfg['policy'][0] == 'model2':
                     # Engine2.tla: the runs of prog as a product of run managers on one loop; every transition replayed
                     from harness import replay
                     r = replay.replay_graph2(prog, overlap=cfg.get('overlap', False), max_paths=cfg['policy'][1], collect=True)
@@ -376,6 +394,8 @@ def build_jobs(pid, tier, seed):
             cfgs = cancel_cfgs(seed, 1 if quick else 3, 60, 4 if quick else 1) + base_cfgs(seed, 2, 0)
         else:
             cfgs = base_cfgs(seed, 4 if quick else 20, 6 if quick else 60) + offset_cfgs(p, 24 if quick else 300, seed)
+            if not programs.is_ambiguous(p):
+                cfgs.append(dict(policy=['trace', 3 if quick else 12, seed * 1009]))
         jobs.append((p['name'], p, cfgs))
     return jobs
 
@@ -413,7 +433,7 @@ def chunks(jobs, n):
     for j in jobs:
         i = load.index(min(load))
         out[i].append(j)
-        load[i] += sum(c['policy'][1] if c['policy'][0] == 'eager_enum' else (400 if c['policy'][0] in ('model', 'model2') else 1) for c in j[2])
+        load[i] += sum(c['policy'][1] if c['policy'][0] == 'eager_enum' else (400 if c['policy'][0] in ('model', 'model2') else 60 if c['policy'][0] == 'trace' else 1) for c in j[2])
     out = [sorted(c, key=lambda j: j[0]) for c in out if c]
     return out
 
@@ -527,6 +547,8 @@ def run_runtime(pid, tier, seed):
                              'walks': sum(m['walks'] for m in minfo),
                              'drift_instances': [m['prog'] for m in drift],
                              'model_invariants_violated': {m['prog']: m['invariants_violated'] for m in minfo if m['invariants_violated']},
+                             'code_to_spec_scripts': sum(m.get('scripts', 0) for m in minfo),
+                             'code_to_spec_script_steps': sum(m.get('script_steps', 0) for m in minfo),
                              'liveness_checked': sum(1 for m in minfo if m.get('liveness')),
                              'liveness_failed': [m['prog'] for m in minfo if m.get('liveness') and not m['liveness']['ok']]},
             'distinct_trace_signatures': sigs,
@@ -554,9 +576,11 @@ def run_runtime(pid, tier, seed):
     with open(os.path.join(ROOT, 'evidence', pid + '.json'), 'w') as f:
         json.dump(evidence, f, indent=1)
     print('%s %s: %d executions of %d programs validated by TLC (%d states), %d new violation(s), %d known finding(s); '
-          'Engine.tla: %d instances, %d states, %d/%d transitions replayed on the code, %d drifted; %.1fs'
-          % (pid, tier, total, len(jobs), states, len(reported), len(known_hits), len(minfo), sum(m['states'] for m in minfo),
-             sum(m['replayed'] for m in minfo), sum(m['transitions'] for m in minfo), len(drift), time.time() - t0))
+          'Engine.tla: %d instances, %d states, %d/%d transitions replayed on the code, %d recorded executions followed '
+          'step by step, %d drifted; %.1fs'
+          % (pid, tier, total, len(jobs), states, len(reported), len(known_hits), sum(1 for m in minfo if not m.get('scripts')),
+             sum(m['states'] for m in minfo), sum(m['replayed'] for m in minfo), sum(m['transitions'] for m in minfo),
+             sum(m.get('scripts', 0) for m in minfo), len(drift), time.time() - t0))
     return rc
 
 
